@@ -3,7 +3,11 @@
    predicate proved of the model's observation holds of the implementation's. *)
 From ZT Require Import Base Layers Run Chk_World ObsC01.
 
-Definition model_case (w0 : rworld) (o0 : ropts) (inj : bool) : case :=
+(* what the harness adds to an observation without the model having a say: the injection flag and the printed listings *)
+Record extras := { hx_inj : bool; hx_lf : option (list name); hx_le : option (list name) }.
+Definition extras_of (c : case) : extras := {| hx_inj := i_injected c; hx_lf := i_lfail c; hx_le := i_lerr c |}.
+
+Definition model_case (w0 : rworld) (o0 : ropts) (inj : extras) : case :=
   let r := run w0 o0 in
   {| w := w0; o := o0;
      i_parent := observed w0 (r_parent r);
@@ -13,7 +17,7 @@ Definition model_case (w0 : rworld) (o0 : ropts) (inj : bool) : case :=
      i_summaries := summaries (r_parent r) ++ flat_map (fun ch => summaries (c_ev ch)) (r_children r);
      i_total := if Nat.eqb (r_layers_run r) 1 then None
                 else Some (r_ran r, length (r_fail r), length (r_err r) + o_import_errors o0, r_skip r);
-     i_injected := inj |}.
+     i_injected := hx_inj inj; i_lfail := hx_lf inj; i_lerr := hx_le inj |}.
 
 Lemma name_eqb_eq a b : name_eqb a b = true -> a = b.
 Proof.
@@ -32,7 +36,7 @@ Lemma opt_eqb_eq {A} (eqb : A -> A -> bool) : (forall a b, eqb a b = true -> a =
 Proof. intros He [a|] [b|]; simpl; try discriminate; [intros H; f_equal; apply He; exact H | reflexivity]. Qed.
 
 Theorem agree_is_model c : agree c = true -> Nat.ltb 1 (o_procs (o c)) = false ->
-  c = model_case (w c) (o c) (i_injected c).
+  c = model_case (w c) (o c) (extras_of c).
 Proof.
   intros Ha Hp. unfold agree in Ha. rewrite Hp in Ha.
   repeat (apply andb_prop in Ha; destruct Ha as [Ha ?]).
@@ -47,6 +51,6 @@ Proof.
   | [ E : Bool.eqb _ _ = true |- _ ] => apply Bool.eqb_prop in E
   | [ E : negb _ = true |- _ ] => apply Bool.negb_true_iff in E
   end.
-  unfold model in *. destruct c as [w0 o0 ip ic ir ifl ie isk ifd iab isu ito iin]. unfold model_case. cbn [w o i_parent i_children i_ran i_fail i_err i_skip i_failed i_aborted i_summaries i_total i_injected] in *.
+  unfold model in *. destruct c as [w0 o0 ip ic ir ifl ie isk ifd iab isu ito iin ilf ile]. unfold model_case, extras_of. cbn [w o i_parent i_children i_ran i_fail i_err i_skip i_failed i_aborted i_summaries i_total i_injected i_lfail i_lerr hx_inj hx_lf hx_le] in *.
   subst. reflexivity.
 Qed.
